@@ -29,7 +29,7 @@ MANIFEST = {
             "matrix algebra; numpy.linalg.pinv/svd meet the SVD-truncation contract (checked numerically per instance, not proved); "
             "IEEE rounding and float32 storage are not modelled (oracle tolerances 1e-9 for float64, 2e-3 for float32 matrices, "
             "conditioning of the generated C_offoff bounded accordingly). End-to-end cases through the covariance builder are "
-            "restricted to co-located, point-symmetric, equal-diameter geometries (disjoint point-symmetric masks of one grid) "
+            "run on co-located point-symmetric geometries AND on general geometries (arbitrary masks with different sub-aperture counts, different directions and guide-star altitudes) "
             "because the builder itself is the subject of C01 (defects D1/D2 there); general PSD matrices are hand-made.",
     "technique": "Lean 4 proof (Mathlib matrix algebra over a contract-parametrised model) + exact differential correspondence with "
                  "the real code + numerical contract check + oracle search",
@@ -513,28 +513,55 @@ def oracle_endtoend(chk, quick):
     ncase = 40 if quick else 1500
     for it in range(ncase):
         nx = rng.choice([3, 4, 5, 6] if quick else [3, 4, 5, 6, 7, 8])
-        regs = sym_regions(nx, rng)
-        if len(regs) < 2:
-            continue
-        m = rng.randint(2, min(3, len(regs)))
-        masks = rng.sample(regs, m)
-        dup = rng.randrange(m)
-        allm = numpy.array([masks[dup]] + masks)
-        nw = m + 1
+        general = rng.random() < 0.6
         D = rng.choice([4.2, 8.0, 1.0])
         d = D / nx
-        gs = (rng.uniform(-30, 30), rng.uniform(-30, 30)) if rng.random() < 0.7 else (0.0, 0.0)
-        alt = rng.choice([0.0, 0.0, 90e3])
-        lam_dup = rng.choice([500e-9, 600e-9, 1.65e-6])
-        lams = [lam_dup] + [rng.choice([500e-9, 800e-9]) for _ in range(m)]
-        lams[1 + dup] = lam_dup
         nl = rng.randint(1, 2)
         lay_alt = [0.0, rng.uniform(1000, 12000)][:nl] if rng.random() < 0.6 else [rng.uniform(0, 12000) for _ in range(nl)]
         lay_r0 = [rng.uniform(0.08, 0.4) for _ in range(nl)]
         lay_L0 = [rng.uniform(8, 60) for _ in range(nl)]
-        cfg = {"nx": nx, "masks": [mk.tolist() for mk in allm], "dup": dup, "D": D, "gs": gs, "gs_alt": alt, "wavelengths": lams,
-               "layer_alt": lay_alt, "layer_r0": lay_r0, "layer_L0": lay_L0}
-        obj = S.CovarianceMatrix(nw, allm, D, numpy.full(nw, d), numpy.full(nw, alt), numpy.array([gs] * nw), numpy.array(lams),
+        if general:
+            # arbitrary (non-symmetric) masks with DIFFERENT sub-aperture counts, sensors looking in different directions
+            # and at different guide-star altitudes; only the duplicated pair shares direction, mask, wavelength
+            m = rng.randint(2, 3)
+            masks = []
+            for _ in range(m):
+                while True:
+                    mk = (nprng.random((nx, nx)) < rng.choice([0.35, 0.6, 0.9])).astype(int)
+                    if mk.sum() >= 2:
+                        break
+                masks.append(mk)
+            dup = rng.randrange(m)
+            allm = numpy.array([masks[dup]] + masks)
+            nw = m + 1
+            gss = [(rng.uniform(-40, 40), rng.uniform(-40, 40)) for _ in range(nw)]
+            alts = [rng.choice([0.0, 90e3, 20e3]) for _ in range(nw)]
+            gss[0] = gss[1 + dup]
+            alts[0] = alts[1 + dup]
+            lam_dup = rng.choice([500e-9, 600e-9, 1.65e-6])
+            lams = [lam_dup] + [rng.choice([500e-9, 800e-9]) for _ in range(m)]
+            lams[1 + dup] = lam_dup
+            gs, alt = gss[0], alts[0]
+            gs_arr, alt_arr = numpy.array(gss), numpy.array(alts)
+        else:
+            regs = sym_regions(nx, rng)
+            if len(regs) < 2:
+                continue
+            m = rng.randint(2, min(3, len(regs)))
+            masks = rng.sample(regs, m)
+            dup = rng.randrange(m)
+            allm = numpy.array([masks[dup]] + masks)
+            nw = m + 1
+            gs = (rng.uniform(-30, 30), rng.uniform(-30, 30)) if rng.random() < 0.7 else (0.0, 0.0)
+            alt = rng.choice([0.0, 0.0, 90e3])
+            lam_dup = rng.choice([500e-9, 600e-9, 1.65e-6])
+            lams = [lam_dup] + [rng.choice([500e-9, 800e-9]) for _ in range(m)]
+            lams[1 + dup] = lam_dup
+            gs_arr, alt_arr = numpy.array([gs] * nw), numpy.full(nw, alt)
+        chk.count("oracle:endtoend:%s" % ("general-geometry" if general else "symmetric-colocated"))
+        cfg = {"nx": nx, "masks": [mk.tolist() for mk in allm], "dup": dup, "D": D, "gs": gs_arr.tolist(), "gs_alt": alt_arr.tolist(),
+               "wavelengths": lams, "layer_alt": lay_alt, "layer_r0": lay_r0, "layer_L0": lay_L0}
+        obj = S.CovarianceMatrix(nw, allm, D, numpy.full(nw, d), alt_arr, gs_arr, numpy.array(lams),
                                  nl, numpy.array(lay_alt), numpy.array(lay_r0), numpy.array(lay_L0), threads=1)
         C = obj.make_covariance_matrix()
         n = int(obj.n_subaps[0])
@@ -547,9 +574,11 @@ def oracle_endtoend(chk, quick):
         chk.case(("endtoend", nx, tuple(int(v) for v in obj.n_subaps), dup, it), sample=dict(cfg, masks="<%d masks>" % nw) if it < 2 else None)
         # precondition of the property: C symmetric PSD (the builder is C01's subject; outside it this is not a C02 case)
         ev = numpy.linalg.eigvalsh((Cf + Cf.T) / 2)
-        if numpy.abs(Cf - Cf.T).max() > 1e-5 * numpy.abs(Cf).max() or ev.min() < -1e-5 * ev.max():
-            chk.count("oracle:endtoend:skipped-builder-output-not-sym-psd(C01)")
-            continue
+        not_psd = numpy.abs(Cf - Cf.T).max() > 1e-5 * numpy.abs(Cf).max() or ev.min() < -1e-5 * ev.max()
+        if not_psd:
+            # the first sentence of the property presupposes a symmetric PSD matrix (the builder is C01's subject), but the
+            # duplicate-sensor clause is stated end-to-end: it is still evaluated below; the other clauses are skipped
+            chk.count("oracle:endtoend:builder-output-not-sym-psd")
         A, Conoff = Cf[p:, p:], Cf[:p, p:]
         condA = numpy.linalg.cond(A)
         k0 = 2 * int(sum(obj.n_subaps[1:1 + dup]))
@@ -571,7 +600,7 @@ def oracle_endtoend(chk, quick):
                          "reconstructor differs from copy-that-sensor by %.3g; n_subaps=%s cond=%.3g"
                          % (dup + 1, err, obj.n_subaps.tolist(), condA), cfg)
             res = float(numpy.abs(R0 @ A - Conoff).max())
-            if not within(chk, "normal-eq:endtoend:full", res, 5 * TOL32 * numpy.abs(Conoff).max() * q):
+            if not not_psd and not within(chk, "normal-eq:endtoend:full", res, 5 * TOL32 * numpy.abs(Conoff).max() * q):
                 chk.fail("normal-eq:endtoend:full", "R*C_offoff != C_onoff end-to-end: residual %.3g (scale %.3g) n_subaps=%s"
                          % (res, numpy.abs(Conoff).max(), obj.n_subaps.tolist()), cfg)
         else:
@@ -579,7 +608,7 @@ def oracle_endtoend(chk, quick):
         # (ii) a conditioning value inside the widest spectral gap: retained normal equations, support, state between calls
         s = numpy.sort(numpy.abs(numpy.linalg.eigvalsh(A)))[::-1]
         s = s[s > 1e-3 * s[0]]
-        if len(s) >= 2:
+        if len(s) >= 2 and not not_psd:
             ratios = s[:-1] / s[1:]
             j = int(numpy.argmax(ratios))
             if ratios[j] >= 1.5:
@@ -627,7 +656,7 @@ def run(chk):
         "NumPy slicing/dot semantics are tied to the model by the exact integer correspondence only (sizes 3..12 quick, 3..30 thorough)",
         "expectation reading: J = E|s_on - R s_off|^2 is proved for finite samples (J_eq_sum_sq); the passage from an ensemble "
         "covariance to an expectation is the standard probabilistic bridge of DESIGN §3.4",
-        "end-to-end cases are restricted to co-located point-symmetric equal-diameter geometries (C01 covers the builder); builder "
+        "end-to-end cases: co-located point-symmetric and general geometries, equal sub-aperture diameters (C01 covers the builder itself); builder "
         "outputs that are not symmetric PSD are skipped and counted, not judged",
     ]
     chk.build_and_audit("AoVerif.Props.C02", "AoVerif.Props.C02", REQUIRED)
@@ -690,8 +719,8 @@ def replay(rec):
         masks = numpy.array(r["masks"])
         nw = len(masks)
         nx = r["nx"]
-        obj = S.CovarianceMatrix(nw, masks, r["D"], numpy.full(nw, r["D"] / nx), numpy.full(nw, r["gs_alt"]),
-                                 numpy.array([r["gs"]] * nw), numpy.array(r["wavelengths"]), len(r["layer_alt"]),
+        obj = S.CovarianceMatrix(nw, masks, r["D"], numpy.full(nw, r["D"] / nx), numpy.array(r["gs_alt"], dtype=float) if isinstance(r["gs_alt"], list) else numpy.full(nw, r["gs_alt"]),
+                                 numpy.array(r["gs"], dtype=float) if isinstance(r["gs"][0], (list, tuple)) else numpy.array([r["gs"]] * nw), numpy.array(r["wavelengths"]), len(r["layer_alt"]),
                                  numpy.array(r["layer_alt"]), numpy.array(r["layer_r0"]), numpy.array(r["layer_L0"]), threads=1)
         C = obj.make_covariance_matrix()
         rcond = float(r.get("rcond", 0.0))
